@@ -93,7 +93,11 @@ Definition ensure_suitable (m : module) (c : comp) (la : list comp) : res unit :
     else if isSome (m_cp m) && negb (is_trans_at m && c_kr c) then Err E_Incompatible
     else Ok tt
   else if c_cp c then
-    (if isSome (m_cp m) then (if double_case la then Ok tt else Err E_Incompatible) else Ok tt)
+    (if isSome (m_cp m) then
+       (* the documented exception is a DOUBLE transporter: never a third carrier protein *)
+       (if existsb c_cp (m_others m) then Err E_Incompatible
+        else if double_case la then Ok tt else Err E_Incompatible)
+     else Ok tt)
   else if c_end c then (if isSome (m_end m) then Err E_Assert else Ok tt)
   else Ok tt.
 
@@ -281,10 +285,11 @@ Definition L_pairs (cs : list comp) : bool := walk [] cs && negb (pair_open cs).
 (* the documented exception is a DOUBLE transporter: no more than two carrier proteins *)
 Definition L_cp_strict (cs : list comp) : bool := (cnt c_cp cs <=? 2)%nat.
 
-(* what the code guarantees (C14_layout_inv) ... *)
+(* the rules without the bound on the carrier proteins (kept to tell which clause a violation breaks) ... *)
 Definition layout_weak (cs : list comp) : bool :=
   L_starter cs && L_loader cs && L_mix cs && L_end cs && L_pairs cs.
-(* ... and the property: in addition at most one carrier protein, two in the double-transporter case *)
+(* ... and the property: in addition at most one carrier protein, two in the double-transporter case
+   (C14_layout_inv, C14_layout_cp_at_most_two: guaranteed by the code since the repair of finding F52) *)
 Definition layout_spec (cs : list comp) : bool := layout_weak cs && L_cp_strict cs.
 
 (* the slots and flags are functions of the component list *)
@@ -391,7 +396,8 @@ Definition eDM (mf : module * list Z) : list Z :=
 Definition eDMs (ms : list (module * list Z)) : list Z := eList eDM ms.
 
 (* spec verdicts on an implementation output: [1] satisfied, [0] violated, [-1] output undecodable *)
-(* [2]: only the clause "no more than two carrier proteins" fails (finding class 1) *)
+(* [2]: only the clause "no more than two carrier proteins" fails (the repaired finding F52: a violation
+   like [0], the harness suppresses nothing; the separate code only names the clause) *)
 Definition verdict (b : bool) : list Z := [if b then 1 else 0].
 Definition verdict2 (f : bool -> bool) : list Z := [if f true then 1 else if f false then 2 else 0].
 Definition undecodable : list Z := [-1].
